@@ -442,7 +442,7 @@ func (e *Engine) strIDsAt(o *Oblig) []T { return e.strIDs }
 
 // ubiquitous symbols connect everything; they do not make a fact relevant on their own.
 func ubiquitous(x string) bool {
-	for _, p := range []string{"pc!", "alloc", "Mem", "H_", "H!", "MapP", "MapV", "MapN", "g_MapP", "g_MapV", "g_MapN", "c!", "slen", "sarr", "select", "store", "and", "or", "not", "=>", "=", "<=", "<", "+", "-", "*", "ite", "forall", "exists", "Int", "div", "mod", "true", "false", "as", "const", "Array", "lambda", "let", "!", ":pattern", "str_of", "sconcat", "dig", "blktype", "maptype"} {
+	for _, p := range []string{"pc!", "alloc", "Mem", "H_", "H!", "MapP", "MapV", "MapN", "g_MapP", "g_MapV", "g_MapN", "c!", "slen", "sarr", "select", "store", "and", "or", "not", "=>", "=", "<=", "<", "+", "-", "*", "ite", "forall", "exists", "Int", "div", "mod", "true", "false", "as", "const", "Array", "lambda", "let", "!", ":pattern", "str_of", "sconcat", "dig", "blktype", "maptype", "elty"} {
 		if x == p || (strings.HasSuffix(p, "!") || p == "alloc" || p == "Mem" || p == "H_" || strings.HasPrefix(p, "Map") || strings.HasPrefix(p, "g_Map")) && strings.HasPrefix(x, p) {
 			return true
 		}
